@@ -113,8 +113,8 @@ func (h *handshakeSessionHandler) handleHandshake(handshake *packet.Handshake, p
 		}
 	}
 
-	vHost := netutil.NewAddr(
-		fmt.Sprintf("%s:%d", handshake.ServerAddress, handshake.Port),
+	vHost := netutil.NewHostPortAddr(
+		handshake.ServerAddress, uint16(handshake.Port),
 		h.conn.LocalAddr().Network(),
 	)
 	handshakeIntent := handshake.Intent()
